@@ -190,9 +190,20 @@ def bounds_grid_stratum(ctx, ws):
         for (lo, hi, form) in ((r, r, "int"), (r, r, "range"), (0, 5000, "range"), (r + 1, r + 5, "range"), (max(0, r - 3), r - 1, "range"), (1001, 3000, "range")):
             jobs.append(("item", r, lo, hi, form))
         jobs.append(("$and", r // 2, r // 2, r // 2, "int"))
+    # the same counts and bounds handed to the element as macro ARGUMENTS (`times: cnt` in the macro body, `cnt: 3` at the call)
+    for kind in GRID_KINDS:
+        if kind in ("deref-operand", "or-operand"):
+            continue
+        for r in range(0, 5):
+            for n in range(0, 6):
+                jobs.append((kind, r, n, n, "int-macro"))
+            for lo, hi in ((0, 1), (0, 3), (1, 2), (2, 2), (2, 4), (3, 5), (4, 5)):
+                jobs.append((kind, r, lo, hi, "range-macro"))
     for i, (kind, r, lo, hi, form) in enumerate(jobs):
         if i % ctx.nshards != ctx.shard:
             continue
+        by_macro = form.endswith("-macro")
+        form = form[:-6] if by_macro else form
         if form == "min-only" and lo > 1:
             continue                                               # {min: 3} alone means min 3, max 1: an inverted pair, C17's subject
         t = hi if form == "int" else {"min": lo, "max": hi} if form == "range" else {"min": lo} if form == "min-only" else {"max": hi}
@@ -238,14 +249,21 @@ def bounds_grid_stratum(ctx, ws):
                 {"$not": ["cli"], "times": t} if kind == "$not" else {"$and_any_order": ["push", "pop"], "times": t}
             pattern = ["hlt", E, "cli"]
             covered = 2 + r * (2 if kind in ("$and", "$and_any_order") else 1)
+        macros = None
+        if by_macro:
+            formal_t = "cnt" if form == "int" else {"min": "lo", "max": "hi"}
+            body = {"nop": {"times": formal_t}} if kind == "item" else {**{k: v for k, v in E.items() if k != "times"}, "times": formal_t}
+            macros = [{"name": "@rep", "args": ["cnt"] if form == "int" else ["lo", "hi"], "pattern": [body]}]
+            pattern = ["hlt", {"@rep": None, **({"cnt": hi} if form == "int" else {"lo": lo, "hi": hi})}, "cli"]
+            ctx.event("bounds_grid_cells_with_bounds_as_macro_arguments")
         text = L.render(insts, ctx.rng, labels=False)
         lp = ws.write("grid.s", text)
-        rule = real.dump_rule({"config": {"mnemonics-full-match": True}, "pattern": pattern})
+        rule = real.dump_rule({"config": {"mnemonics-full-match": True}, **({"macros": macros} if macros else {}), "pattern": pattern})
         res = real.match(ws.write("grid.yaml", rule), lp, ret="list", search="all", only_addr=False)
         ctx.ran()
         ctx.event("bounds_grid_cells")
         want = lo <= r <= hi
-        ctx.case(("grid", kind, r, lo, hi, form), True, stratum=f"bounds grid/{kind}", outcome="found" if (res[0] == "ok" and res[1]) else "exc" if res[0] != "ok" else "not found")
+        ctx.case(("grid", kind, r, lo, hi, form, by_macro), True, stratum=f"bounds grid/{kind}" + ("/by macro argument" if by_macro else ""), outcome="found" if (res[0] == "ok" and res[1]) else "exc" if res[0] != "ok" else "not found")
         case = {"grid": True, "rule": rule, "listing": text, "want": want, "covered": covered}
         if res[0] != "ok":
             ctx.disagreement(case, f"bounds grid: {kind} repeated r={r} times with times={t}: real raised {res[1]}: {res[2]}")
